@@ -8,12 +8,13 @@
    `tmp k` is the k-th temporary: arbitrary, injective.  Fragment: literals, variables, class receivers, ! and unary -,
    arithmetic and comparisons, && and ||, ::, calls of class functions / methods / function values, method references,
    field access, tuples, if / else (chains), blocks with `let x` / `let _` / `let (x, _, y)` / expression statements.
-   lambda expressions (context record, function value; the synthetic function has its own theorem).
-   Not in the fragment: match and `if let` (patterns: C01pat), `let` with a nested or object pattern. *)
+   lambda expressions (context record, function value; the synthetic function has its own theorem), and - through
+   C01pat's model of lower_matching_pattern and its theorem - match, `if let` and `let` with any pattern.
+   Not in the fragment: a bare variable pattern at the top of a match arm / `if let` (Syntax.top_ok). *)
 From Coq Require Import ZArith NArith List Bool Lia.
 Import ListNotations.
 From SV Require Import Common.Int32 C01expr.Syntax C01expr.SrcSem C01expr.HirSem C01expr.Lower C01expr.Corr
-  C01expr.Proofs C01expr.ProofsMain C01expr.ProofsParts C01expr.ProofsWitness.
+  C01expr.Proofs C01expr.ProofsPat C01expr.ProofsMain C01expr.ProofsParts C01expr.ProofsWitness.
 
 (* MAIN THEOREM.  For every expression e of the fragment, every scope stack cx and counter n, every source
    environment r, HIR environment s and history tr such that every visible source variable resolves (through cx)
@@ -44,7 +45,40 @@ Theorem C01expr_lower_blk_sound :
   forall b cx n r s tr D ss re n' cx',
     lower_blk Pinned tmp b cx n = (ss, re, n', cx') -> cx <> [] -> inv tmp r cx s n -> dom_in r D -> nsb D b ->
     sound tmp w s tr n n' ss re (seval_blk w true r b tr).
-Proof. exact (fun w tmp inj => proj2 (proj2 (lower_sound_all w tmp inj))). Qed.
+Proof. exact (fun w tmp inj => proj2 (proj2 (proj2 (lower_sound_all w tmp inj)))). Qed.
+
+(* the arms of a match, given the lowered scrutinee re holding the matched value v: first matching arm in written order
+   (the statements are built from the last arm to the first; the fall-through Process.panic call is reached only when
+   no arm matches, which the source semantics counts as ill-typed: the checker demands exhaustive matches) *)
+Theorem C01expr_lower_arms_sound :
+  forall (w : world) (tmp : nat -> N), (forall i j, tmp i = tmp j -> i = j) ->
+  forall cs re coll cx n r s tr D v ss rr n' cx',
+    lower_arms Pinned tmp cs re coll cx n = (ss, rr, n', cx') -> inv tmp r cx s n -> dom_in r D -> nsa D cs ->
+    heval s re = Some v -> stable tmp n re ->
+    sound tmp w s tr n n' ss rr (seval_arms w true r cs v tr).
+Proof. exact (fun w tmp inj => proj1 (proj2 (proj2 (lower_sound_all w tmp inj)))). Qed.
+
+(* ONE PATTERN SITE (a `let p`, the guard of an `if let`, a match arm).  Lower.guard = the embedding of
+   C01pat.Lower.lower_guard (LateInitDeclarations of the keys + lower_matching_pattern) on the lowered scrutinee.
+   This is C01pat_lower_guard_correct, instantiated (at the scrutinee value with its non-struct, non-enum parts
+   replaced by labels) and carried over to HirSem and the values of this slice by a simulation that holds for every
+   C01pat statement list (ProofsPat.simulation): the statements run to the end without touching the history, write
+   only temporaries drawn from n on; if p matches v (SrcSem.smatch = C01pat's pmatch through the labelling) the
+   condition is 1 and the late-init variable of every variable of p holds the value it is bound to; otherwise the
+   condition is 0. *)
+Theorem C01expr_guard_sound :
+  forall (w : world) (tmp : nat -> N), (forall i j, tmp i = tmp j -> i = j) ->
+  forall p bs r n v s tr gs gc n1,
+    guard tmp p bs r n = (gs, gc, n1) ->
+    wf p -> NoDup bs -> incl (binders p) bs -> top_ok p = true ->
+    heval s r = Some v -> sshape p v = true -> stable tmp n r ->
+    exists s1, exec_block w gs s tr = HNext s1 tr /\
+      (forall y, low tmp n y -> s1 y = s y) /\
+      match smatch p v with
+      | Some b => heval s1 gc = Some (VInt 1) /\ forall x w', slookup b x = Some w' -> s1 (bn_of tmp bs n x) = Some w'
+      | None => heval s1 gc = Some (VInt 0)
+      end.
+Proof. exact guard_sound. Qed.
 
 (* A whole function body: parameters bound to themselves (ExpressionLoweringManager::new), none of them a
    temporary; running the lowered body from the argument environment gives what the source semantics gives. *)
@@ -84,6 +118,7 @@ Theorem C01expr_counter_and_scopes :
   forall (ver : version) (tmp : nat -> N),
     (forall e cx n ss re n' cx', lower ver tmp e cx n = (ss, re, n', cx') -> (n <= n')%nat /\ extE (bv e) cx cx') /\
     (forall es cx n ss rs n' cx', lower_args ver tmp es cx n = (ss, rs, n', cx') -> (n <= n')%nat /\ extE (bvs es) cx cx') /\
+    (forall cs re coll cx n ss rr n' cx', lower_arms ver tmp cs re coll cx n = (ss, rr, n', cx') -> (n <= n')%nat /\ extE (bva cs) cx cx') /\
     (forall b cx n ss re n' cx', lower_blk ver tmp b cx n = (ss, re, n', cx') -> cx <> [] -> (n <= n')%nat /\ extB (bvb b) cx cx').
 Proof. exact shape_all. Qed.
 
@@ -183,6 +218,17 @@ Example C01expr_nonvacuous_lambda :
   run_body Pinned w_lam [2%N] e_lambda (env_x (VInt 5)) = SVal (VInt 8) [(FLam 1, [VStruct [VInt 5]; VInt 3])].
 Proof. vm_compute. auto. Qed.
 
+(* patterns: a `let` with a tuple / variant pattern, a match with a variant and a wildcard arm, an `if let`: hypotheses
+   hold; first arm (3 + 3 + 9), second arm (the call), and a scrutinee that the let pattern does not fit (stuck) *)
+Example C01expr_nonvacuous_patterns :
+  ns [2%N] e_pat /\
+  seval w_one true (env_x (v_pat 0)) e_pat [] = SVal (VInt 15) [] /\
+  run_body Pinned w_one [2%N] e_pat (env_x (v_pat 0)) = SVal (VInt 15) [] /\
+  seval w_one true (env_x (v_pat 1)) e_pat [] = SVal (VInt 1) [(FUser 1, [VInt 0])] /\
+  run_body Pinned w_one [2%N] e_pat (env_x (v_pat 1)) = SVal (VInt 1) [(FUser 1, [VInt 0])] /\
+  seval w_one true (env_x (VInt 5)) e_pat [] = SFail FStuck.
+Proof. split; [apply (proj1 nsB_all); vm_compute; reflexivity|]. vm_compute. auto 10. Qed.
+
 (* the pinned code on the witness of the seeded change: f is called *)
 Example C01expr_pinned_on_seeded_witness :
   run_body Pinned w_one [2%N] e_seeded7 (env_x (VInt 1)) = SVal (VInt 1) [(FUser 1, [VInt 0])] /\
@@ -192,6 +238,8 @@ Proof. vm_compute. auto. Qed.
 Print Assumptions C01expr_lower_sound.
 Print Assumptions C01expr_lower_args_sound.
 Print Assumptions C01expr_lower_blk_sound.
+Print Assumptions C01expr_lower_arms_sound.
+Print Assumptions C01expr_guard_sound.
 Print Assumptions C01expr_lower_body_correct.
 Print Assumptions C01expr_lambda_fn_correct.
 Print Assumptions C01expr_counter_and_scopes.
